@@ -294,7 +294,8 @@ class Ctx(object):
         cap = ob.timeout or self.solver_cap
         cmd = ['cbmc', gb, '--function', ob.func, '--unwind', str(ob.unwind),
                '--unwinding-assertions', '--drop-unused-functions',
-               '--no-malloc-may-fail', '--json-ui', '--trace', '--slice-formula']
+               '--no-malloc-may-fail', '--json-ui', '--trace', '--slice-formula',
+               '--verbosity', '8']
         cmd += BASE_CHECKS
         if ob.mem:
             cmd += MEM_CHECKS
@@ -353,9 +354,6 @@ class Ctx(object):
                 m = re.search(r'Runtime Solver: ([\d.e+-]+)s', txt)
                 if m:
                     r.solver_s += float(m.group(1))
-                m = re.search(r'Runtime decision procedure: ([\d.e+-]+)s', txt)
-                if m:
-                    r.solver_s = max(r.solver_s, float(m.group(1)))
         if results is None:
             r.status = 'broken'
             r.detail = 'no result block; errors: %s' % '; '.join(errors)[-2000:]
@@ -673,7 +671,8 @@ def conclude(ctx, obs, level_note, assumptions, stubs, rule, pre_info, extra_cov
 
 def write_evidence(ctx, obs, level_note, assumptions, stubs, rule, pre_info, extra_cov,
                    violations=0, problems=None, replayed=0, broken=None, known_lines=None):
-    discharged = [o for o in obs if o.result and o.result.status == 'holds']
+    discharged = [o for o in obs if o.result and o.result.status == 'holds'
+                  and not (o.kfmode and o.kfmode[0] == 'ONLY')]
     nontriv = [o for o in discharged if o.result.witness and o.result.vars > 0]
     funcs = set()
     samples = []
@@ -701,8 +700,9 @@ def write_evidence(ctx, obs, level_note, assumptions, stubs, rule, pre_info, ext
                          'formula had SAT variables and the vacuity witness (assert(0) at the end of '
                          'the harness) was reachable'),
         'samples': samples[:60] or [{'note': 'no obligation ran'}],
-        'obligations': len(obs),
+        'obligations': len([o for o in obs if not (o.kfmode and o.kfmode[0] == 'ONLY')]),
         'discharged': len(discharged),
+        'known_finding_probes': len([o for o in obs if o.kfmode and o.kfmode[0] == 'ONLY']),
         'traces_validated_against_impl': replayed,
         'solver_s': round(sum(o.result.solver_s for o in obs if o.result), 1),
         'sat_variables_max': max([o.result.vars for o in obs if o.result] or [0]),
